@@ -251,6 +251,23 @@ type Box[T any] struct {
 //go:noinline
 func (b Box[T]) Val() int { return b.n + 900 }
 
+// Chain: methods whose bodies begin by calling another generic method (or a generic function) of the same instantiation
+
+//go:noinline
+func (b Box[T]) Count() int { return b.n + 40 }
+
+//go:noinline
+func (b Box[T]) Total() int { return b.Count()*2 + 1 }
+
+//go:noinline
+func (g *G[T]) Inner(a int) int { return g.n*3 + a }
+
+//go:noinline
+func (g *G[T]) Outer(a int) int { return g.Inner(a) + genHelper[T](a) }
+
+//go:noinline
+func genHelper[T any](a int) int { return a + 11 }
+
 func TestC06Generics(t *testing.T) {
 	rep := vmon.NewReport("C06")
 	defer rep.Write()
@@ -281,6 +298,13 @@ func TestC06Generics(t *testing.T) {
 		inst{"Box[int].Val", "box-int", func(a int) int { return bi.Val() }, func(a int) int { return gi.Other(a) }, func(b *mocker.Builder, v int) { b.Struct(Box[int]{}).Method("Val").Return(v) }},
 		inst{"Box[string].Val", "box-string", func(a int) int { return bs.Val() }, func(a int) int { return gs.Other(a) }, func(b *mocker.Builder, v int) { b.Struct(Box[string]{}).Method("Val").Return(v) }},
 		inst{"Box[int].Val via method value", "box-int", func(a int) int { f := bi.Val; return f() }, func(a int) int { return gi.Other(a) }, func(b *mocker.Builder, v int) { b.Struct(Box[int]{}).Method("Val").Return(v) }},
+	)
+	// a mocked method whose body starts with a call to a sibling generic method: the sibling (the "other" here) stays
+	insts = append(insts,
+		inst{"Box[int].Total (calls Count first)", "box-int-total", func(a int) int { return bi.Total() }, func(a int) int { return bi.Count() }, func(b *mocker.Builder, v int) { b.Struct(Box[int]{}).Method("Total").Return(v) }},
+		inst{"Box[string].Total (calls Count first)", "box-string-total", func(a int) int { return bs.Total() }, func(a int) int { return bs.Count() }, func(b *mocker.Builder, v int) { b.Struct(Box[string]{}).Method("Total").Return(v) }},
+		inst{"G[int].Outer (calls Inner first)", "g-int-outer", func(a int) int { return gi.Outer(a) }, func(a int) int { return gi.Inner(a) }, func(b *mocker.Builder, v int) { b.Struct(&G[int]{}).Method("Outer").Return(v) }},
+		inst{"G[*GA].Outer (calls Inner first)", "g-ptr-outer", func(a int) int { return ga.Outer(a) }, func(a int) int { return ga.Inner(a) }, func(b *mocker.Builder, v int) { b.Struct(&G[*GA]{}).Method("Outer").Return(v) }},
 	)
 	orig := make([]int, len(insts))
 	oorig := make([]int, len(insts))
@@ -439,4 +463,111 @@ func TestC06Retarget(t *testing.T) {
 		rep.Class("retarget/one-mocker-object")
 		rep.Stat("retargeted_mocker_objects", 1)
 	}
+}
+
+type ownT struct{ v int }
+
+//go:noinline
+func (o *ownT) peek(a int) int { return o.v + a + 70 }
+
+//go:noinline
+func (o *ownT) poke(a int) int { return o.v + a + 80 }
+
+type siteHelper struct{}
+
+// a helper with a value receiver, as test suites have them
+func (siteHelper) mock(b *mocker.Builder, v int) {
+	b.ExportStruct("*ownT").Method("peek").As(func(o unsafe.Pointer, a int) int { return 0 }).Return(v)
+}
+
+func genericSite[T any](b *mocker.Builder, v int) {
+	b.ExportStruct("*ownT").Method("peek").As(func(o unsafe.Pointer, a int) int { return 0 }).Return(v)
+}
+
+// TestC06CallSites: an unexported type of the calling package addressed by name (no Pkg), with the lookup written in a
+// flat function body, a function literal, a t.Run sub-test, a deferred closure, a value-receiver helper method and a
+// generic helper: the named method of the CALLER's package is replaced each time.
+func TestC06CallSites(t *testing.T) {
+	rep := vmon.NewReport("C06")
+	defer rep.Write()
+	o := &ownT{v: 1}
+	as := func(o unsafe.Pointer, a int) int { return 0 }
+	check := func(site string, b *mocker.Builder, v int, perr interface{}) {
+		rep.Eval(1)
+		rep.Class("call-site/" + site)
+		if perr != nil {
+			rep.Violate("C06/mock-rejected", fmt.Sprintf("by-name method mock written in a %s: %v", site, perr), map[string]interface{}{"site": site})
+		} else if got, other := o.peek(2), o.poke(2); got != v || other != 83 {
+			rep.Violate("C06/mocked-method-not-replaced", fmt.Sprintf("by-name method mock written in a %s: peek(2) = %d want %d, poke(2) = %d want 83", site, got, v, other), map[string]interface{}{"site": site})
+		}
+		func() { defer func() { recover() }(); b.Reset() }()
+		if got := o.peek(2); got != 73 {
+			rep.Violate("C06/not-restored", fmt.Sprintf("after Reset (%s): peek(2) = %d want 73", site, got), nil)
+		}
+	}
+	guard := func(f func()) (perr interface{}) {
+		defer func() { perr = recover() }()
+		f()
+		return nil
+	}
+	// flat
+	{
+		b := mocker.Create()
+		var perr interface{}
+		func() {
+			defer func() { perr = recover() }()
+		}()
+		perr = guardFlat(b, 7101)
+		check("flat function body", b, 7101, perr)
+	}
+	// function literal, builder created outside
+	{
+		b := mocker.Create()
+		perr := guard(func() { b.ExportStruct("*ownT").Method("peek").As(as).Return(7102) })
+		check("function literal", b, 7102, perr)
+	}
+	// function literal creating the builder itself, two lookups
+	{
+		var b *mocker.Builder
+		perr := guard(func() {
+			b = mocker.Create()
+			b.ExportStruct("*ownT").Method("poke")
+			b.ExportStruct("*ownT").Method("peek").As(as).Return(7103)
+		})
+		check("function literal that also creates the builder", b, 7103, perr)
+	}
+	// t.Run sub-test
+	t.Run("sub", func(t *testing.T) {
+		b := mocker.Create()
+		perr := guard(func() { b.ExportStruct("*ownT").Method("peek").As(as).Return(7104) })
+		check("t.Run sub-test", b, 7104, perr)
+	})
+	// deferred closure
+	{
+		b := mocker.Create()
+		var perr interface{}
+		func() {
+			defer func() {
+				perr = guard(func() { b.ExportStruct("*ownT").Method("peek").As(as).Return(7105) })
+			}()
+		}()
+		check("deferred closure", b, 7105, perr)
+	}
+	// value-receiver helper and generic helper
+	{
+		b := mocker.Create()
+		perr := guard(func() { siteHelper{}.mock(b, 7106) })
+		check("value-receiver helper method", b, 7106, perr)
+	}
+	{
+		b := mocker.Create()
+		perr := guard(func() { genericSite[int](b, 7107) })
+		check("generic helper function", b, 7107, perr)
+	}
+}
+
+func guardFlat(b *mocker.Builder, v int) (perr interface{}) {
+	defer func() { perr = recover() }()
+	b.ExportStruct("*ownT").Method("peek").As(func(o unsafe.Pointer, a int) int { return 0 }).Return(v)
+	return nil
 }
